@@ -1,4 +1,4 @@
-CONSTANT Cfg <- Cfg_exc2
+CONSTANT CfgSet <- S_exc2
 INIT MCInit
 NEXT Next
 CHECK_DEADLOCK FALSE
